@@ -95,6 +95,13 @@ theorem tier_hypothesis_needed :
     runVM fns (schedSteps [.enter, .run 9] + 10) vm = none ∧
     runTiered (mkImpl fns (sloppyNative fns)) [.run 9] 10 vm = none := by decide
 
+/-- … and in the way the code really breaks it (finding K02e): a native primitive that goes on with a placeholder
+after a type error.  `(if (+ 1 #t) 7 8)`: the interpreter reports the error, the tiered run yields 8. -/
+theorem tier_hypothesis_needed_error :
+    let vm := initVM (.ite (.prim .add (.const (.int 1)) (.const (.bool true))) (.const (.int 7)) (.const (.int 8)))
+    runTiered (mkImpl [] (lossyNative [])) [.enter, .run 9] 10 vm = some (.int 8) ∧
+    runVM [] (schedSteps [.enter, .run 9] + 10) vm = none := by decide
+
 /-! ## (c) Histories -/
 
 /-- The full statement: unit-local inlining is unobservable in every history. -/
